@@ -19,7 +19,7 @@ try:
     r0 = sh("/venv/bin/python", demo, env=env, cwd="/tmp", timeout=600); ran.append(f"demo on pristine HEAD: exit {r0.returncode}")
     ra = sh("git", "-C", wt, "apply", os.path.join(src, "patch.diff")); ran.append(f"git apply: exit {ra.returncode} {ra.stderr.strip()[:200]}")
     r1 = sh("/venv/bin/python", demo, env=env, cwd="/tmp", timeout=600); ran.append(f"demo with patch: exit {r1.returncode}")
-    rb = sh("/tmp/seedtools/run_baseline.py", wt, timeout=3000); ran.append("baseline with patch: " + rb.stdout.strip().splitlines()[-1])
+    rb = sh("/verif/tools/run_baseline.py", wt, timeout=3000); ran.append("baseline with patch: " + rb.stdout.strip().splitlines()[-1])
     ok = r0.returncode == 0 and ra.returncode == 0 and r1.returncode == 1 and "SUITE-STILL-PASSES" in rb.stdout
     print(name, "KEEP" if ok else "REJECT", ran)
     if ok:
